@@ -183,7 +183,7 @@ void h_discover(void) {
     probe_t *pre_head = ST->see_list;
     parseFrame(RX, &g_cfgA);
     if (accept) {
-        V_ASSERT(g_nsend == 1 && g_hello_seen, "C05: every Discover from the active mapper, or from anyone while none is active, is answered");
+        V_ASSERT(g_nsend == 1 && g_hello_seen, "C03,C05: a Discover accepted under the one-mapper rule (from the active mapper, or from anyone while none is active) is answered by exactly one Hello");
         V_ASSERT(ST->mapper_known == 1 && mac6_eq(ST->mapper_real.a, in.frame + F_RSRC), "C05: accepted Discover's sender is the active mapper");
     } else {
         V_ASSERT(g_nsend == 0, "C05: a Discover from another station gets no reply while a mapper is active");
@@ -193,7 +193,7 @@ void h_discover(void) {
     V_ASSERT(ST->see_list_count == pre_n, "C07: a Discover leaves recorded observations alone"); (void)pre_head;
     {
         struct snap sn; snapshot_list(ST, &sn);
-        for (unsigned a = 0; a < K; a++) if (a < pre_n) V_ASSERT(snap_has(&sn, &in.st.node[a]), "C07: observations recorded before a Discover are still there afterwards");
+        for (unsigned a = 0; a < K; a++) if (a < pre_n) V_ASSERT(snap_has(&sn, &in.st.node[a]), "C07,C10: observations recorded before a Discover are still there afterwards");
     }
     V_ASSERT(g_live_blocks == live0, "C19: Hello buffer released");
     V_WITNESS("h_discover end");
